@@ -25,6 +25,7 @@ import ast
 from ..absint import Vec, Tup, K, Opq, Lin, Alt, as_lin_val
 from ..index import AnalysisError
 from ..lin import Facts
+from .. import astq
 from ._c02_fh import FHInterp, Obj, TV, Mask, Sel, Cnt, AllV, exc_name, FH_PATH
 from ._c02_fh import run as irun, AlwaysRaises, no_result, rejects_for_sure
 
@@ -50,9 +51,10 @@ def call(repo, it, obj, name, **args):
     k, fn = method(repo, it, obj, name)
     a = dict(args)
     a[fn.args.args[0].arg] = obj
-    mark = len(it.partial_rejections)
+    mark, mmark = len(it.partial_rejections), len(it.mutations)
     rets, raises, _ = irun(it, k.module, fn, a, obj.cls, k)
     rets.partial = it.partial_rejections[mark:]
+    rets.mutations = it.mutations[mmark:]
     return rets, raises, k, fn
 
 
@@ -115,6 +117,12 @@ def judge(ctx, rule, construct, rets, want, wf, loc, what):
         ctx.violation(rule, construct, "%s: got %r, expected %r%s" % (what, wrong[0], want, note), loc,
                       witness={"got": repr(wrong[0]), "expected": repr(want)})
         return None
+    for m in getattr(rets, "mutations", ())[:1]:
+        ctx.violation(rule, construct + ":no-mutation",
+                      "%s: %s in %s (line %s) works in place on a numpy view of a horizon's stored values (%r): the horizon -- "
+                      "and every cached conversion result sharing the data -- is changed, so a second call with the same "
+                      "arguments returns different steps" % (what, m["how"], m["func"].name, getattr(m["node"], "lineno", "?"), m["value"]),
+                      loc, witness={"history": "call twice on the same horizon"})
     rej = cutoff_rejections(rets)
     if rej:
         cond, node = rej[0]
@@ -221,11 +229,51 @@ def rule_r2(ctx, repo):
               ctx.loc(mod, tbl) if tbl is not None else FH_PATH)
 
 
+def _extreme_mask(v):
+    """``min(vec) > c`` / ``max(vec) <= c`` (and the strict / non-strict variants) as the mask that must hold everywhere;
+    the extreme elements of the sorted vector appear as the symbols fh[0] / fh[-1]."""
+    if not (isinstance(v, Opq) and v.tag.startswith("cmp:") and len(v.args) == 2):
+        return None
+    op = v.tag[4:]
+    a, b = as_lin_val(v.args[0]), as_lin_val(v.args[1])
+    if a is None or b is None:
+        return None
+    d = a - b
+    for sym, which in (("fh[0]", "first"), ("fh[-1]", "last")):
+        coef = d.terms.get(sym)
+        if coef in (1, -1) and not (d.symbols() - {sym, "cutoff"}):
+            if coef == -1:
+                d = -d
+                op = {"<": ">", "<=": ">=", ">": "<", ">=": "<=", "==": "==", "!=": "!="}[op]
+            off = d - Lin.sym(sym)
+            vec = STEPS.shift(off)
+            # min > 0 <=> all > 0 ; max <= 0 <=> all <= 0
+            if which == "first" and op in (">", ">="):
+                return Mask("gt", vec if op == ">" else vec.shift(1))
+            if which == "last" and op in ("<=", "<"):
+                return Mask("le", vec if op == "<=" else vec.shift(1))
+            return None
+    return None
+
+
 def all_form(v):
     """('all', mask) for the recognised spellings of "mask holds for every element";
     ('bad', text) for a well-formed but different comparison; None if not recognised."""
     if isinstance(v, AllV):
         return "all", v.mask
+    if isinstance(v, Opq) and v.tag == "or" and len(v.args) == 2:
+        # empty horizon or extreme element on the right side:  len == 0 or min(v) > 0   /   len == 0 or max(v) <= 0
+        n = Lin.sym("len(fh)")
+        for e, x in ((v.args[0], v.args[1]), (v.args[1], v.args[0])):
+            empty = isinstance(e, Opq) and e.tag in ("cmp:==", "cmp:<=", "cmp:<") and len(e.args) == 2 \
+                and as_lin_val(e.args[0]) == n and as_lin_val(e.args[1]) == Lin.c(1 if e.tag == "cmp:<" else 0)
+            m = _extreme_mask(x)
+            if empty and m is not None:
+                return "all", m
+    m = _extreme_mask(v)
+    if m is not None:
+        # without the empty-horizon case: min() / max() of an empty index raises -- equivalent only for non-empty horizons
+        return None
     if isinstance(v, Opq) and v.tag.startswith("cmp:") and len(v.args) == 2:
         op = v.tag[4:]
         a, b = v.args
@@ -541,9 +589,101 @@ def rule_r5(ctx, repo):
                     nonempty(it, s, v, cons + ":non-empty")
 
 
+# ------------------------------------------------------------------ R1: memoisation of the conversions
+TRANSPARENT_DECORATORS = {"builtins.property", "builtins.staticmethod", "builtins.classmethod", "functools.wraps"}
+# functools.lru_cache keys on *all* arguments including the receiver and keeps the receiver alive in the cache:
+# for an immutable horizon the memoised result is the result (immutability: ":no-mutation" obligations of R1-R3)
+KEYED_ON_ALL_ARGUMENTS = {"functools.lru_cache", "functools.cache"}
+
+
+def rule_decorators(ctx, repo):
+    """The bodies interpreted by R1-R3 are what callers get only if the decorators do not change the result: every
+    decorator of a ForecastingHorizon method is transparent, an all-arguments cache, or a repo-local wrapper whose
+    memo key is checked here (H2: results are not memoised under a key that misses something they depend on)."""
+    mod = repo.module(FH_PATH)
+    cls = repo.cls(FH_PATH + ":ForecastingHorizon")
+    for name, fn in sorted(cls.methods.items()):
+        for dec in fn.decorator_list:
+            target = dec.func if isinstance(dec, ast.Call) else dec
+            cons = "ForecastingHorizon.%s:decorator:%s" % (name, ast.unparse(target))
+            loc = ctx.loc(mod, dec)
+            sym = repo.resolve_expr(mod, target)
+            dotted_name = sym.dotted if sym is not None else ("builtins." + target.id if isinstance(target, ast.Name) else None)
+            if isinstance(target, ast.Attribute) and target.attr in ("setter", "getter", "deleter"):
+                ctx.ok("R1", cons, "property accessor", loc, nontrivial=False)
+            elif dotted_name in TRANSPARENT_DECORATORS:
+                ctx.ok("R1", cons, "transparent decorator", loc, nontrivial=False)
+            elif dotted_name in KEYED_ON_ALL_ARGUMENTS:
+                ctx.ok("R1", cons, "cache keyed on the receiver object (kept alive) and every argument", loc)
+            elif sym is not None and sym.kind == "func":
+                judge_wrapper(ctx, repo, cons, sym, fn, loc)
+            else:
+                ctx.undecided("R1", cons, "decorator %r is not interpreted: the method body analysed by R1-R3 may not be what "
+                              "callers get" % ast.unparse(target), loc)
+
+
+def judge_wrapper(ctx, repo, cons, sym, method, loc):
+    dec_fn, dmod = sym.target, sym.module
+    inner = [n for n in dec_fn.body if isinstance(n, ast.FunctionDef)]
+    rets = [r.value for r in ast.walk(dec_fn) if isinstance(r, ast.Return) and r in dec_fn.body]
+    if len(inner) != 1 or len(rets) != 1 or not (isinstance(rets[0], ast.Name) and rets[0].id == inner[0].name):
+        ctx.undecided("R1", cons, "decorator does not have the shape `def wrapper(...): ...; return wrapper`", loc)
+        return
+    w = inner[0]
+    wrapped = dec_fn.args.args[0].arg if dec_fn.args.args else None
+    params = [a.arg for a in w.args.args]
+    # module-level containers the wrapper reads or writes
+    containers = {}
+    for n in ast.walk(w):
+        if isinstance(n, ast.Name) and n.id not in params and isinstance(dmod.defs.get(n.id), (ast.Dict, ast.List, ast.Set, ast.Call)):
+            d = dmod.defs[n.id]
+            if isinstance(d, ast.Call) and not (isinstance(d.func, ast.Name) and d.func.id in ("dict", "list", "set", "OrderedDict")):
+                continue
+            containers[n.id] = d
+    stores = [n for n in ast.walk(w) if isinstance(n, ast.Subscript) and isinstance(n.ctx, ast.Store)
+              and isinstance(n.value, ast.Name) and n.value.id in containers]
+    if not containers:
+        calls = [c for c in ast.walk(w) if isinstance(c, ast.Call) and isinstance(c.func, ast.Name) and c.func.id == wrapped]
+        wrets = [r.value for r in ast.walk(w) if isinstance(r, ast.Return)]
+        plain_call = len(calls) == 1 and len(wrets) == 1 and wrets[0] is calls[0] and \
+            [ast.unparse(a) for a in calls[0].args] + sorted(k.arg or "**" for k in calls[0].keywords) == \
+            [("*" + w.args.vararg.arg) if False else p for p in params] + ([] if w.args.kwarg is None else ["**"])
+        if plain_call and not w.args.vararg:
+            ctx.ok("R1", cons, "wrapper returns the method's result for the same arguments", loc)
+        else:
+            ctx.undecided("R1", cons, "repo-local decorator not interpreted", loc)
+        return
+    if not stores:
+        ctx.undecided("R1", cons, "wrapper uses the module-level container(s) %s in a way that is not understood" % sorted(containers), loc)
+        return
+    for st_ in stores:
+        key = astq.inline_locals(w, st_.slice)
+        ids = [c for c in ast.walk(key) if isinstance(c, ast.Call) and isinstance(c.func, ast.Name) and c.func.id == "id"
+               and repo.resolve_name(dmod, "id") is None and "id" not in params]
+        names = {n.id for n in ast.walk(key) if isinstance(n, ast.Name)}
+        recv = params[0] if params else None
+        by_identity = [c for c in ids if c.args and isinstance(c.args[0], ast.Name) and c.args[0].id == recv]
+        if by_identity and not any(isinstance(n, ast.Name) and n.id == recv and not any(n is c.args[0] for c in by_identity)
+                                   for n in ast.walk(key)):
+            ctx.violation("R1", cons, "results of %s are memoised in the module-level %s under a key that contains only id(%s) of the "
+                          "horizon: the entry outlives the object, and a later horizon that gets the same id (after garbage "
+                          "collection) receives the other horizon's conversion -- the key misses the steps the result depends on"
+                          % (method.name, st_.value.id, recv), loc,
+                          witness={"history": "convert horizon A, drop it, create horizon B with other steps, convert B with the same cutoff"})
+        elif recv in names and all(p in names for p in params):
+            ctx.ok("R1", cons, "memo key contains the receiver object and every argument", loc)
+        else:
+            missing = [p for p in params if p not in names]
+            if missing and not ids:
+                ctx.violation("R1", cons, "results of %s are memoised in %s under a key that omits %s" % (method.name, st_.value.id, missing), loc)
+            else:
+                ctx.undecided("R1", cons, "memo key %r not understood" % ast.unparse(key), loc)
+
+
 def run_rules(ctx):
     repo = ctx.repo
     rule_r1(ctx, repo)
+    rule_decorators(ctx, repo)
     rule_r2(ctx, repo)
     rule_r3(ctx, repo)
     rule_r4(ctx, repo)
